@@ -3,8 +3,10 @@ package c14
 
 import (
 	"fmt"
+	"image"
 	"image/color"
 	"math"
+	"strings"
 	"sync"
 	"sync/atomic"
 	"testing"
@@ -202,11 +204,14 @@ func TestC14(t *testing.T) {
 		if err := ev.ReplayCase(&c); err != nil {
 			t.Fatal(err)
 		}
-		if k, w := check(c); k != "" {
-			ev.Fail(t, "alpha", c.Space+"/"+c.Check+"/"+k, w, c)
+		if !strings.HasPrefix(c.Check, "image-") {
+			if k, w := check(c); k != "" {
+				ev.Fail(t, "alpha", c.Space+"/"+c.Check+"/"+k, w, c)
+			}
+			fmt.Println("REPLAY case passed:", c)
+			return
 		}
-		fmt.Println("REPLAY case passed:", c)
-		return
+		// image-level cases are replayed by re-running the (cheap, exhaustive) enumeration below
 	}
 	ev.Rule("enumerations per space: all 256 8-bit alphas x 24 colours (decode exactness, 8-bit round trip, transparent pixels incl. invalid premultiplied values); all 65,536 16-bit alphas x 16 channel levels through RGBA64/NRGBA64/custom colour types (decode exactness, LineariseColor/EncodeColor alpha round trip, transparent -> zero); premultiplied validity: every alpha x 64 channel values <= alpha (quick) / every (channel <= alpha) pair (thorough); encode-side alpha for boundary floats (k+0.5)/max +-ulps and specials; opaque constructor agreement for all codes. non-trivial = distinct case with 0 < channel <= alpha < max (non-opaque, non-zero)")
 	ev.Assume("for the non-premultiplied 8-bit constructor a transparent pixel is required to give alpha 0 and the per-channel decode (see DESIGN C14)")
@@ -375,6 +380,74 @@ func TestC14(t *testing.T) {
 			}
 		}
 		wg.Wait()
+	}
+	// image level: every 16-bit alpha in one 256x256 image, written into a REUSED (non-zero) destination buffer;
+	// alpha must come out bit-identical, transparent pixels as zero colour with alpha 0, channels <= alpha
+	for si := range sp.Spaces {
+		s := &sp.Spaces[si]
+		for _, srcKind := range []string{"RGBA64", "NRGBA64"} {
+			for _, op := range []string{"Linearise", "Encode"} {
+				var src image.Image
+				alphaAt := func(x, y int) uint16 { return uint16(y*256 + x) }
+				if srcKind == "RGBA64" {
+					m := image.NewRGBA64(image.Rect(-5, 3, 251, 259))
+					for y := 0; y < 256; y++ {
+						for x := 0; x < 256; x++ {
+							a := alphaAt(x, y)
+							m.SetRGBA64(x-5, y+3, color.RGBA64{R: a / 2, G: a, B: a / 7, A: a})
+						}
+					}
+					src = m
+				} else {
+					m := image.NewNRGBA64(image.Rect(-5, 3, 251, 259))
+					for y := 0; y < 256; y++ {
+						for x := 0; x < 256; x++ {
+							m.SetNRGBA64(x-5, y+3, color.NRGBA64{R: uint16(x * 257), G: 0xFFFF, B: uint16(y), A: alphaAt(x, y)})
+						}
+					}
+					src = m
+				}
+				dst := image.NewRGBA64(image.Rect(0, 0, 256, 256))
+				for i := range dst.Pix {
+					dst.Pix[i] = 0xAB
+				}
+				c := Case{Check: "image-" + op + "-" + srcKind, Space: s.Name}
+				pn, msg := ev.Guard(func() {
+					if op == "Linearise" {
+						s.LineariseImage(dst, src, 3)
+					} else {
+						s.EncodeImage(dst, src, 3)
+					}
+				})
+				evals += 65536
+				nt += 65534
+				if pn {
+					ev.Violation("alpha", s.Name+"/"+c.Check+"/panic", msg, c)
+					continue
+				}
+				for y := 0; y < 256; y++ {
+					for x := 0; x < 256; x++ {
+						o := dst.RGBA64At(x, y)
+						a := alphaAt(x, y)
+						bad := ""
+						switch {
+						case o.A != a:
+							bad = "alpha-roundtrip"
+						case a == 0 && (o.R != 0 || o.G != 0 || o.B != 0):
+							bad = "transparent"
+						case op == "Linearise" && (o.R > o.A || o.G > o.A || o.B > o.A):
+							bad = "premultiplied"
+						}
+						if bad != "" {
+							c.A, c.C = uint32(a), [3]uint32{uint32(x), uint32(y), 0}
+							ev.Violation("alpha", s.Name+"/"+c.Check+"/"+bad, fmt.Sprintf("%s %sImage(%s source, reused destination): pixel with alpha %d came out as %v", s.Name, op, srcKind, a, o), c)
+							y = 256
+							break
+						}
+					}
+				}
+			}
+		}
 	}
 	ev.Eval(evals)
 	ev.NTAdd(nt)
